@@ -158,7 +158,9 @@ def execute(p, chooser):
 
         def canceller(c, idx):
             def run():
-                det.wait_until(lambda: c["j"] in futs and len(m.fs) >= c["after_dsub"])
+                det.wait_until(lambda: stop["v"] or (c["j"] in futs and len(m.fs) >= c["after_dsub"]))
+                if stop["v"]:
+                    return
                 if c["delay"]:
                     det.sleep(c["delay"])
                 f = futs[c["j"]]
@@ -201,7 +203,7 @@ def execute(p, chooser):
         ts = [det.spawn("c%d" % k, client(k)) for k in range(p["nclients"])]
         cs = [det.spawn("x%d" % i, canceller(c, i)) for i, c in enumerate(p["cancels"])]
         es = [det.spawn("e%d" % k, env(k), daemon=True) for k in range(p["env_threads"])]
-        for t in ts + cs:
+        for t in ts:
             t.join()
         # let everything quiesce: every retry future done, or nothing can move any more
         det.wait_until(lambda: quiescent(m, futs))
